@@ -262,7 +262,7 @@ Proof.
   split. { eexists. split; [reflexivity|]. exists ["https://www.w3.org/2018/credentials/v1"; "https://example.com/c14/context.jsonld"]. reflexivity. }
   split. { eexists. split; [reflexivity|]. exists ["VerifiableCredential"; "C14Credential"]. reflexivity. }
   split. { left. right. reflexivity. }
-  split. { right. eexists. split; [reflexivity|]. eexists _, _, _. split; [reflexivity|]. split; vm_compute; reflexivity. }
+  split. { right. eexists. split; [reflexivity|]. eexists _, _, _. split; [reflexivity|]. split; [vm_compute; reflexivity|]. vm_compute. reflexivity. }
   split. { eexists. split; [reflexivity|]. eexists _, _. split; [reflexivity|]. vm_compute. reflexivity. }
   split. { left. left. reflexivity. }
   split. { eexists. split; [reflexivity|]. eexists. reflexivity. }
@@ -278,6 +278,7 @@ Proof.
   split. { eexists. vm_compute. reflexivity. }
   intros v Hv. vm_compute in Hv. inversion Hv. eexists. vm_compute. reflexivity.
 Qed.
+
 
 (* and the model evaluates on it: the struct view re-spells the date and drops the null *)
 Example ex_doc_evaluates :
